@@ -1,4 +1,4 @@
-// F19: top-down BMP (negative height) is decoded upside down: _top_down is set but never used
+// F13c: top-down BMP (negative height) is decoded upside down: _top_down is set but never used
 #include <boost/gil.hpp>
 #include <boost/gil/extension/io/bmp.hpp>
 #include <sstream>
